@@ -7,15 +7,25 @@ import GeoVerif.Props.C17
 slice is proved equal to the model's `getitem` for every pair of (optional) bounds, the translated duplicate scan — a loop
 whose state is the local set `_ts` — to the model's `hasDupLoop` for every member list and every set, and the C17 laws
 about them are restated for the translated source.
+
+Round 2 extends the unit to the rest of the class: the views `first` / `last` / `start` / `end`, the pairwise
+differences, `copy`, `__eq__`, `convolve_duplicate_timestamps` (two loops, a `defaultdict`, `continue`, a dict
+comprehension), `filter_by_time` and `filter_impossible_journeys` (an index loop whose every list lookup may raise: the
+proof carries the invariant that the indices stay inside the list).  Each is proved equal to the model function, and
+`track_sorted` / `slice_exact` / `journeys_chain` / `convolve_nodup` are restated for the translated definitions.
 -/
+set_option linter.unusedSimpArgs false
+set_option linter.unusedTactic false
+set_option linter.unreachableTactic false
+
 namespace GV.C17Src
 open GV GV.Coll GV.Coll.Track
 
-variable (a b : Option Int)
+variable (a b : Option Int) (dist : Shape → Shape → Rat)
 
 /-- **the translated `Track.__init__`** (refuse time-less shapes, stable sort by start, hand the list to
     `CollectionBase.__init__`) is the model's `mkTrack` -/
-theorem init_eq (l : List Shape) : Src.Track.init a b l = mkTrack l := by
+theorem init_eq (l : List Shape) : Src.Track.init a b dist l = mkTrack l := by
   simp only [Src.Track.init, mkTrack]
   first
     | rfl
@@ -23,7 +33,7 @@ theorem init_eq (l : List Shape) : Src.Track.init a b l = mkTrack l := by
        rw [h]; cases l.all Shape.timed <;> rfl)
 
 theorem getitem_eq (c : Coll) :
-    Src.Track.getitem a b c () = getitem c a b := by
+    Src.Track.getitem a b dist c () = getitem c a b := by
   simp only [Src.Track.getitem, getitem]
   congr 1
   apply List.filter_congr
@@ -32,28 +42,389 @@ theorem getitem_eq (c : Coll) :
   cases a <;> cases b <;> simp <;> grind
 
 theorem hasDupLoop_eq (c : Coll) :
-    ∀ (l : List Shape) (seen : List (Option TI)), Src.Track.hasDup.loop1 a b c l seen = hasDupLoop l seen := by
+    ∀ (l : List Shape) (seen : List (Option TI)), Src.Track.hasDup.loop1 a b dist c l seen = hasDupLoop l seen := by
   intro l
   induction l with
   | nil => intro seen; rfl
   | cons p ps ih =>
     intro seen
     unfold Src.Track.hasDup.loop1 hasDupLoop
-    simp only [ih]
+    simp only [ih] <;> cases seen.contains p.dt <;> simp
 
-theorem hasDup_eq (c : Coll) : Src.Track.hasDup a b c = hasDup c := by
+theorem hasDup_eq (c : Coll) : Src.Track.hasDup a b dist c = hasDup c := by
   simp only [Src.Track.hasDup, hasDup, hasDupLoop_eq]
 
 /-! ### the C17 laws, restated for the translated source -/
 
 /-- the source's duplicate scan answers "some time bound occurs twice" -/
 theorem src_hasDup_iff (c : Coll) :
-    Src.Track.hasDup a b c = true ↔ ¬ (c.shapes.map (·.dt)).Nodup := by
+    Src.Track.hasDup a b dist c = true ↔ ¬ (c.shapes.map (·.dt)).Nodup := by
   rw [hasDup_eq]; exact hasDup_iff c
 
 /-- the source's unbounded slice is the whole track -/
 theorem src_slice_unbounded {c : Coll} (hc : TrackWF c) :
-    Src.Track.getitem none none c () = .ok ⟨.track, c.shapes⟩ := by
+    Src.Track.getitem none none dist c () = .ok ⟨.track, c.shapes⟩ := by
   rw [getitem_eq]; exact slice_unbounded hc
+
+/-! ## round 2: the rest of the class
+
+`first`, `last`, `start`, `end`, `time_start_diffs`, `centroid_distances`, `copy`, `convolve_duplicate_timestamps`,
+`filter_by_time`, `filter_impossible_journeys`.  The haversine distance of two centroids is the parameter `dist`. -/
+
+/-- `len(xs)` against small literals, whichever way round the comparison is written -/
+theorem len_nil {α : Type} : GV.Py.len ([] : List α) = 0 := rfl
+theorem len_cons_ne {α : Type} (x : α) (xs : List α) : GV.Py.len (x :: xs) ≠ 0 := by
+  unfold GV.Py.len; simp only [List.length_cons]; omega
+theorem len_cons_ne' {α : Type} (x : α) (xs : List α) : (0 : Int) ≠ GV.Py.len (x :: xs) := (len_cons_ne x xs).symm
+theorem len_cons_pos {α : Type} (x : α) (xs : List α) : (0 : Int) < GV.Py.len (x :: xs) := by
+  unfold GV.Py.len; simp only [List.length_cons]; omega
+theorem len_cons_not_le {α : Type} (x : α) (xs : List α) : ¬ GV.Py.len (x :: xs) ≤ (0 : Int) := by
+  have := len_cons_pos x xs; omega
+
+theorem copy_eq (c : Coll) : Src.Track.copy a b dist c = copy c := by
+  simp only [Src.Track.copy, copy]
+
+theorem first_eq (c : Coll) : Src.Track.first a b dist c = first c := by
+  unfold Src.Track.first first
+  cases c.shapes <;> simp [GV.Py.getIdx, len_nil, len_cons_ne, len_cons_ne', len_cons_pos, len_cons_not_le]
+
+theorem last_eq (c : Coll) : Src.Track.last a b dist c = last c := by
+  unfold Src.Track.last last
+  first | rw [GV.Py.getIdxI_neg_one] | rw [GV.Py.getIdxI_len_pred]
+  cases hl : c.shapes.getLast? with
+  | none => simp [List.getLast?_eq_none_iff.mp hl, len_nil]
+  | some x =>
+    have hne : c.shapes ≠ [] := fun h => by rw [h] at hl; cases hl
+    obtain ⟨y, ys, hys⟩ := List.exists_cons_of_ne_nil hne
+    simp [hne, hys, len_cons_ne, len_cons_ne', len_cons_pos, len_cons_not_le]
+
+theorem startT_eq (c : Coll) : Src.Track.startT a b dist c = startT c := by
+  unfold Src.Track.startT startT first
+  cases c.shapes <;> simp [GV.Py.getIdx, len_nil, len_cons_ne, len_cons_ne', len_cons_pos, len_cons_not_le]
+
+theorem endT_eq (c : Coll) : Src.Track.endT a b dist c = endT c := by
+  unfold Src.Track.endT endT last
+  first | rw [GV.Py.getIdxI_neg_one] | rw [GV.Py.getIdxI_len_pred]
+  cases hl : c.shapes.getLast? with
+  | none => simp [List.getLast?_eq_none_iff.mp hl, len_nil]
+  | some x =>
+    have hne : c.shapes ≠ [] := fun h => by rw [h] at hl; cases hl
+    obtain ⟨y, ys, hys⟩ := List.exists_cons_of_ne_nil hne
+    simp [hne, hys, len_cons_ne, len_cons_ne', len_cons_pos, len_cons_not_le]
+
+theorem len_lt_two {α : Type} (l : List α) : decide (GV.Py.len l < (2 : Int)) = decide (l.length < 2) := by
+  unfold GV.Py.len
+  congr 1
+  apply propext
+  omega
+
+theorem timeStartDiffs_eq (c : Coll) : Src.Track.timeStartDiffs a b dist c = timeStartDiffs c := by
+  unfold Src.Track.timeStartDiffs timeStartDiffs consecutive
+  simp only [len_lt_two, List.drop_one, decide_eq_true_eq]
+
+theorem centroidDistances_eq (c : Coll) : Src.Track.centroidDistances a b dist c = centroidDistances dist c := by
+  unfold Src.Track.centroidDistances centroidDistances consecutive
+  simp only [len_lt_two, List.drop_one, decide_eq_true_eq]
+
+/-! ### `__eq__` -/
+
+theorem listEq_eq : ∀ (xs ys : List Shape), GV.Py.listEq sameOrEq xs ys = sameShapes xs ys
+  | [], [] => rfl
+  | [], _ :: _ => rfl
+  | _ :: _, [] => rfl
+  | x :: xs, y :: ys => by simp only [GV.Py.listEq, sameShapes, listEq_eq xs ys]
+
+/-- the translated `__eq__` at an operand of class `Track` … -/
+theorem eqTrack_eq (c o : Coll) (ho : o.tag = .track) : Src.Track.eqTrack a b dist c o = eq c o := by
+  unfold Src.Track.eqTrack eq
+  rw [listEq_eq, ho]
+  cases sameShapes c.shapes o.shapes <;> rfl
+
+/-- … and at an operand of another class -/
+theorem eqOther_eq (c o : Coll) (ho : o.tag ≠ .track) : Src.Track.eqOther a b dist c o = eq c o := by
+  unfold Src.Track.eqOther eq
+  cases ht : o.tag
+  · rfl
+  · exact absurd ht ho
+
+/-- the `==` of member lists of `Model/Track.lean` is the one of `Model/Collection.lean` (C18's `listEq`) … -/
+theorem sameShapes_eq_listEq : ∀ (xs ys : List Shape), sameShapes xs ys = GV.Coll.listEq xs ys
+  | [], [] => rfl
+  | [], _ :: _ => rfl
+  | _ :: _, [] => rfl
+  | x :: xs, y :: ys => by simp only [sameShapes, GV.Coll.listEq, sameShapes_eq_listEq xs ys]
+
+/-- … so this unit's model of `Track.__eq__` is C18's `eqTrack` (tied to the code by the `list-eq` stream of C18) -/
+theorem eq_eq_eqTrack (c o : Coll) : Track.eq c o = GV.Coll.eqTrack c o := by
+  unfold Track.eq GV.Coll.eqTrack
+  rw [sameShapes_eq_listEq]
+
+theorem sameShapes_refl : ∀ l : List Shape, sameShapes l l = true
+  | [] => rfl
+  | x :: xs => by simp [sameShapes, sameOrEq, sameShapes_refl xs]
+
+/-- the source's `==` is reflexive on tracks -/
+theorem src_eq_refl (c : Coll) : Src.Track.eqTrack a b dist c c = true := by
+  unfold Src.Track.eqTrack
+  rw [listEq_eq, sameShapes_refl]
+  rfl
+
+/-! ### `filter_by_time` -/
+
+theorem filterByTime_eq (c : Coll) (st et : Int) :
+    Src.Track.filterByTime a b dist c st et = filterByTime c st et := by
+  simp only [Src.Track.filterByTime, filterByTime]
+  refine congrArg mkTrack (List.filter_congr ?_)
+  intro x _
+  unfold timeKeep
+  grind
+
+/-! ### `convolve_duplicate_timestamps` -/
+
+/-- `d[p.dt].append(p)` on the `defaultdict(list)` is the model's `groupInsert` -/
+theorem ddAppend_eq (g : List (Option TI × List Shape)) (p : Shape) :
+    GV.Py.ddAppend g p.dt p = groupInsert g p := by
+  induction g with
+  | nil => rfl
+  | cons kg rest ih =>
+    obtain ⟨k, ps⟩ := kg
+    simp only [GV.Py.ddAppend, groupInsert, ih]
+
+theorem dictSet_eq (d : List (String × PVal)) (k : String) (v : PVal) : GV.Py.dictSet d k v = assocSet d k v := by
+  induction d with
+  | nil => rfl
+  | cons kv rest ih =>
+    obtain ⟨k', v'⟩ := kv
+    simp only [GV.Py.dictSet, assocSet, ih]
+
+/-- the dict comprehension over the members' properties is the model's `mergeProps` -/
+theorem dictOf_eq (g : List Shape) : GV.Py.dictOf (g.flatMap (fun s => s.props)) = mergeProps g := by
+  unfold GV.Py.dictOf mergeProps
+  congr 1
+  funext d kv
+  exact dictSet_eq d kv.1 kv.2
+
+theorem divR_len {α : Type} (x : Rat) (l : List α) (h : l ≠ []) :
+    GV.Py.divR x ((GV.Py.len l : Int) : Rat) = .ok (x / (l.length : Rat)) := by
+  unfold GV.Py.divR GV.Py.len
+  have hl : (l.length : Rat) ≠ 0 := by
+    have : l.length ≠ 0 := by simpa using h
+    exact_mod_cast this
+  have hc : (((l.length : Int) : Rat)) = (l.length : Rat) := by norm_cast
+  rw [hc]
+  simp [hl]
+
+/-- one group of the second loop: what is appended is the model's `convolveGroup` -/
+theorem convolveLoop2_eq (c : Coll) (g0 : List (Option TI × List Shape)) :
+    ∀ (items : List (Option TI × List Shape)) (acc : List Shape), (∀ kg ∈ items, kg.2 ≠ []) →
+      Src.Track.convolve.loop2 a b dist c g0 items acc = mkTrack (acc ++ items.map convolveGroup) := by
+  intro items
+  induction items with
+  | nil => intro acc _; simp [Src.Track.convolve.loop2]
+  | cons kg items ih =>
+    intro acc h
+    have hrest : ∀ kg ∈ items, kg.2 ≠ [] := fun x hx => h x (by simp [hx])
+    have hne : kg.2 ≠ [] := h kg (by simp)
+    obtain ⟨k, g⟩ := kg
+    unfold Src.Track.convolve.loop2
+    match g, hne with
+    | [x], _ =>
+      simp [GV.Py.len, GV.Py.getIdx, convolveGroup, ih _ hrest]
+    | x :: y :: r, _ =>
+      have hlen : ¬ (GV.Py.len (x :: y :: r) = 1) := by
+        unfold GV.Py.len; simp only [List.length_cons]; omega
+      have hlen' : ¬ ((1 : Int) = GV.Py.len (x :: y :: r)) := fun h => hlen h.symm
+      have hu : GV.Py.unzip2 ((x :: y :: r).map (fun s : Shape => (s.lon, s.lat))) =
+          .ok ((x :: y :: r).map (·.lon), (x :: y :: r).map (·.lat)) := by
+        simp [GV.Py.unzip2, List.unzip_eq_map]
+      simp only [beq_iff_eq, hlen, hlen', if_false, hu, dictOf_eq]
+      rw [divR_len _ _ (by simp), divR_len _ _ (by simp)]
+      simp only [ih _ hrest, convolveGroup, avg, GV.Py.sumR, List.map_cons, List.append_assoc,
+        List.singleton_append]
+
+theorem convolveLoop1_eq (c : Coll) :
+    ∀ (l : List Shape) (g : List (Option TI × List Shape)),
+      Src.Track.convolve.loop1 a b dist c l g =
+        Src.Track.convolve.loop2 a b dist c (l.foldl groupInsert g) (l.foldl groupInsert g) [] := by
+  intro l
+  induction l with
+  | nil => intro g; rfl
+  | cons p ps ih =>
+    intro g
+    unfold Src.Track.convolve.loop1
+    simp only [ddAppend_eq, ih, List.foldl_cons]
+
+/-- **the translated `convolve_duplicate_timestamps`** (duplicate test, `copy`, the grouping `defaultdict`, the loop over its
+    items with `continue`, means, merged properties, `GeoPoint`, `Track(…)`) is the model's `convolve` -/
+theorem convolve_eq (c : Coll) : Src.Track.convolve a b dist c = convolve c := by
+  unfold Src.Track.convolve convolve
+  rw [hasDup_eq, copy_eq]
+  cases hd : hasDup c
+  · simp [copy]
+  · have hm := (groupByDt_inv c.shapes).members
+    unfold groupByDt at hm ⊢
+    simp only [if_true, Bool.not_true, Bool.false_eq_true, if_false, convolveLoop1_eq]
+    rw [convolveLoop2_eq a b dist c _ _ [] (fun kg hkg => (hm kg hkg).1)]
+    rfl
+
+/-! ### `filter_impossible_journeys` -/
+
+/-- the `for j in range(1, n)` loop with its index arithmetic (every index stays inside the list) is the model's fold -/
+theorem journeysLoop_eq (c : Coll) (v : Rat) :
+    ∀ (js : List Nat) (i : Nat) (acc : List Shape), i < c.shapes.length → (∀ j ∈ js, j < c.shapes.length) →
+      Src.Track.journeys.loop1 a b dist c v (c.shapes.map (fun s => s.startD)) (c.shapes.map (fun s => s))
+        (js.map (fun k : Nat => (k : Int))) (i : Int) acc
+      = mkTrack ((js.foldl (journeyStep dist v c.shapes) (i, acc)).2) := by
+  intro js
+  induction js with
+  | nil => intro i acc _ _; rfl
+  | cons j js ih =>
+    intro i acc hi hj
+    have hjn : j < c.shapes.length := hj j (by simp)
+    have hrest : ∀ k ∈ js, k < c.shapes.length := fun k hk => hj k (by simp [hk])
+    have e1 : GV.Py.getIdxI (c.shapes.map (fun s => s)) (i : Int) = .ok c.shapes[i] :=
+      GV.Py.getIdxI_ofNat _ _ _ (by simp [hi])
+    have e2 : GV.Py.getIdxI (c.shapes.map (fun s => s)) (j : Int) = .ok c.shapes[j] :=
+      GV.Py.getIdxI_ofNat _ _ _ (by simp [hjn])
+    have e3 : GV.Py.getIdxI (c.shapes.map (fun s => s.startD)) (i : Int) = .ok c.shapes[i].startD :=
+      GV.Py.getIdxI_ofNat _ _ _ (by simp [hi])
+    have e4 : GV.Py.getIdxI (c.shapes.map (fun s => s.startD)) (j : Int) = .ok c.shapes[j].startD :=
+      GV.Py.getIdxI_ofNat _ _ _ (by simp [hjn])
+    have e5 : GV.Py.getIdxI c.shapes (j : Int) = .ok c.shapes[j] :=
+      GV.Py.getIdxI_ofNat _ _ _ (by simp [hjn])
+    have hdt : GV.Py.totalSeconds (c.shapes[j].startD - c.shapes[i].startD) = dtSeconds c.shapes[i] c.shapes[j] := rfl
+    simp only [List.map_cons, List.foldl_cons]
+    rw [journeyStep_eq dist v c.shapes i j acc c.shapes[i] c.shapes[j] (by simp [hi]) (by simp [hjn])]
+    unfold Src.Track.journeys.loop1
+    simp only [e1, e2, e3, e4, e5, hdt]
+    have ihi := ih i acc hi hrest
+    have ihj := ih j (acc ++ [c.shapes[j]]) hjn hrest
+    by_cases h0 : dtSeconds c.shapes[i] c.shapes[j] = 0
+    · have hr : reach dist v c.shapes[i] c.shapes[j] = false := by simp [reach, h0]
+      simpa [h0, hr] using ihi
+    · have h0' : ¬ (0 = dtSeconds c.shapes[i] c.shapes[j]) := fun h => h0 h.symm
+      by_cases hx : dist c.shapes[i] c.shapes[j] = 0
+      · by_cases hv : (0 : Rat) ≤ v
+        · have hr : reach dist v c.shapes[i] c.shapes[j] = true := by simp [reach, h0, hx, hv]
+          simpa [h0, h0', hx, hv, hr] using ihj
+        · have hr : reach dist v c.shapes[i] c.shapes[j] = false := by simp [reach, hx, hv]
+          simpa [h0, h0', hx, hv, hr] using ihi
+      · by_cases hv : dist c.shapes[i] c.shapes[j] / dtSeconds c.shapes[i] c.shapes[j] ≤ v
+        · have hr : reach dist v c.shapes[i] c.shapes[j] = true := by simp [reach, h0, hx, hv]
+          simpa [h0, h0', hx, hv, hr, GV.Py.divR] using ihj
+        · have hr : reach dist v c.shapes[i] c.shapes[j] = false := by simp [reach, hx, hv]
+          simpa [h0, h0', hx, hv, hr, GV.Py.divR] using ihi
+
+/-- **the translated `filter_impossible_journeys`** is the model's `journeys` -/
+theorem journeys_eq (c : Coll) (v : Rat) : Src.Track.journeys a b dist c v = journeys dist v c := by
+  unfold Src.Track.journeys journeys
+  cases hs : c.shapes with
+  | nil => simp [GV.Py.getIdxI]
+  | cons f r =>
+    have h0 : GV.Py.getIdxI (f :: r) (0 : Int) = .ok f := GV.Py.getIdxI_ofNat (f :: r) 0 f (by simp)
+    have hr : GV.Py.rangeI (1 : Int) (GV.Py.len (f :: r)) =
+        (List.range' 1 ((f :: r).length - 1)).map (fun k : Nat => (k : Int)) := by
+      have := GV.Py.rangeI_eq 1 (f :: r).length (by simp)
+      simpa [GV.Py.len] using this
+    simp only [h0, hr]
+    have key := journeysLoop_eq a b dist c v (List.range' 1 ((f :: r).length - 1)) 0 [f]
+      (by rw [hs]; simp) (by intro j hj; rw [hs]; simp only [List.mem_range'_1] at hj; omega)
+    rw [hs] at key
+    exact key
+
+/-! ### the C17 laws, restated for the translated source (round 2) -/
+
+/-- **time order is an invariant of every translated operation**: whatever a slice, a copy, a convolution, a time-of-day
+    filter or a speed filter of the *source* returns for a well-formed track is a well-formed track (class `Track`,
+    non-decreasing starts, no time-less shape).  (`Track.__add__` and the inherited filters: `Props/C18Src.lean`.) -/
+theorem src_ops_keep_order {c c' : Coll} (hc : TrackWF c) (v : Rat) (st et : Int)
+    (h : Src.Track.getitem a b dist c () = .ok c' ∨ Src.Track.copy a b dist c = .ok c' ∨
+         Src.Track.convolve a b dist c = .ok c' ∨ Src.Track.filterByTime a b dist c st et = .ok c' ∨
+         Src.Track.journeys a b dist c v = .ok c') : TrackWF c' := by
+  rcases h with h | h | h | h | h
+  · rw [getitem_eq] at h; exact step_wf hc (.slice a b) h
+  · rw [copy_eq] at h; exact mkTrack_wf h
+  · rw [convolve_eq] at h; exact step_wf hc .convolve h
+  · rw [filterByTime_eq] at h; exact step_wf hc (.filterTime st et) h
+  · rw [journeys_eq] at h; exact step_wf hc (.journeys dist v) h
+
+/-- **the source's slice is exact**: `track[a:b]` succeeds and holds exactly the members that start at or after `a` and end
+    before `b` (an omitted bound imposes nothing), in their order -/
+theorem src_slice_exact {c : Coll} (hc : TrackWF c) :
+    ∃ r, Src.Track.getitem a b dist c () = .ok r ∧ r.tag = .track ∧ r.shapes.Sublist c.shapes ∧
+      ∀ x, x ∈ r.shapes ↔ x ∈ c.shapes ∧ (∀ s, a = some s → s ≤ x.startD) ∧ (∀ e, b = some e → x.endD < e) := by
+  refine ⟨⟨.track, c.shapes.filter (sliceKeep a b)⟩, ?_, rfl, List.filter_sublist, ?_⟩
+  · rw [getitem_eq]; exact slice_exact hc a b
+  · intro x
+    simp only [List.mem_filter, sliceKeep_iff]
+
+/-- the source's speed filter: consecutive shapes of the result are reachable from one another within the limit -/
+theorem src_journeys_chain (v : Rat) {c r : Coll} (hc : TrackWF c) (h : Src.Track.journeys a b dist c v = .ok r) :
+    List.IsChain (fun x y => reach dist v x y = true) r.shapes ∧ r.shapes.Sublist c.shapes := by
+  rw [journeys_eq] at h; exact journeys_chain dist v hc h
+
+/-- the source's convolution leaves exactly one shape per distinct time stamp -/
+theorem src_convolve_nodup {c : Coll} (hc : TrackWF c) :
+    ∃ r, Src.Track.convolve a b dist c = .ok r ∧ TrackWF r ∧ (r.shapes.map (·.dt)).Nodup ∧
+      ∀ d, d ∈ r.shapes.map (·.dt) ↔ d ∈ c.shapes.map (·.dt) := by
+  rw [convolve_eq]; exact convolve_nodup hc
+
+/-- the source's `start` is the earliest start of the track -/
+theorem src_start_le {c : Coll} (hc : TrackWF c) {t : Int} (h : Src.Track.startT a b dist c = .ok t) :
+    ∀ x ∈ c.shapes, t ≤ x.startD := by
+  rw [startT_eq] at h
+  unfold startT first at h
+  have hs := hc.2.1
+  unfold Sorted at hs
+  cases hl : c.shapes with
+  | nil => rw [hl] at h; cases h
+  | cons f r =>
+    rw [hl] at h hs
+    cases h
+    intro x hx
+    rcases List.mem_cons.mp hx with rfl | hx
+    · exact le_refl _
+    · exact (List.pairwise_cons.mp hs).1 x hx
+
+theorem zip_tail_le : ∀ (l : List Shape), l.Pairwise (fun x y => x.startD ≤ y.startD) →
+    ∀ p ∈ l.zip l.tail, p.1.startD ≤ p.2.startD
+  | [], _, p, hp => by simp at hp
+  | [x], _, p, hp => by simp at hp
+  | x :: y :: r, h, p, hp => by
+    simp only [List.tail_cons, List.zip_cons_cons, List.mem_cons] at hp
+    rcases hp with rfl | hp
+    · exact (List.pairwise_cons.mp h).1 y (by simp)
+    · exact zip_tail_le (y :: r) (List.pairwise_cons.mp h).2 p (by simpa using hp)
+
+/-- the pairwise start differences of a well-formed track are non-negative -/
+theorem src_timeStartDiffs_nonneg {c : Coll} (hc : TrackWF c) {ds : List Int}
+    (h : Src.Track.timeStartDiffs a b dist c = .ok ds) : ∀ d ∈ ds, 0 ≤ d := by
+  rw [timeStartDiffs_eq] at h
+  unfold timeStartDiffs consecutive at h
+  split at h
+  · cases h
+  · cases h
+    intro d hd
+    obtain ⟨p, hp, rfl⟩ := List.mem_map.mp hd
+    have hs := hc.2.1
+    unfold Sorted at hs
+    have : p.1.startD ≤ p.2.startD := zip_tail_le c.shapes hs p hp
+    omega
+
+/-- non-vacuity: a track on which the translated views, differences, convolution and speed filter are all non-trivial -/
+example :
+    let s (i : Int) (x y : Int) (lon : Rat) : Shape := ⟨i, i, some ⟨x, y⟩, [], lon, 0⟩
+    let c : Coll := ⟨.track, [s 0 0 9000000 0, s 1 1000000 1000000 1, s 2 1000000 1000000 0, s 3 3000000 3000000 1]⟩
+    let dist : Shape → Shape → Rat := fun p q => if p.lon = q.lon then 0 else 10
+    TrackWF c ∧ Src.Track.first none none dist c = .ok (s 0 0 9000000 0) ∧
+      Src.Track.endT none none dist c = .ok 3000000 ∧
+      Src.Track.timeStartDiffs none none dist c = .ok [1000000, 0, 2000000] ∧
+      Src.Track.journeys none none dist c 5 = .ok ⟨.track, [s 0 0 9000000 0, s 2 1000000 1000000 0, s 3 3000000 3000000 1]⟩ := by
+  intro s c dist
+  have hc : TrackWF c := ⟨rfl, by unfold Sorted; decide, by decide⟩
+  refine ⟨hc, by rw [first_eq]; rfl, by rw [endT_eq]; rfl, by rw [timeStartDiffs_eq]; decide, ?_⟩
+  rw [journeys_eq, journeys_eq_kept dist 5 hc (by decide)]
+  simp only [c, s, dist, kept, greedy, reach, dtSeconds, Shape.startD]
+  norm_num
 
 end GV.C17Src
